@@ -42,6 +42,17 @@ CHECKS.update({
     "C16": _coll("Panic-point enumerator: for every callback-calling operation, every callback index (predicate, key fn, Clone, Drop, iterator step) as the panic point, with and without follow-up use; after unwinding CollTrace requires: no id dropped twice (now or later), no dropped/moved-out id reachable in any container, no duplicate ids, caller-held values not dropped; leaks allowed.", "6/C16"),
     "C17": _coll("Box programs (new_in, drop, into_inner, leak, into_raw/from_raw round trip, from_iter_in, Vec->boxed slice, Debug forwarding) on bumpalo and std Box twins validated against Coll!Sem; BoxDropReleasesNoMemory checks that no global-allocator free and no accounting change happens at Box drop.", "6/C17"),
 })
+CHECKS["C05"] = dict(category="model_checking", design_ref="6/C05",
+    text=("Borrow.tla is a typestate model of client programs (statements: create a token of each arena-lifetime-carrying kind, use/drop it, reset, "
+          "iter_allocated_chunks, allocate more, drop/move the arena, share it with / send it to a scoped thread, send/share a token). TLC enumerates every program "
+          "up to 3 statements over 2 tokens (3.9k quick, all 13 token kinds thorough), checks the model's own sanity invariants and emits accept/reject per program; "
+          "each program is rendered to Rust against the real API and compiled with rustc against the rlib built from the working tree; verdicts must agree in both "
+          "directions (misuse rejected, ordinary patterns accepted)."),
+    note=("Trusted: rustc as the executor; the rendering of statements to Rust (lib/vcheck/borrow.py). Decides the enumerated family, not all Rust programs. "
+          "Sync-ness of iterator types without shared-reference methods reaching the arena is deliberately not judged."),
+    technique="TLA+ typestate model enumerated by TLC + conformance of rustc verdicts on generated probe programs")
+ENGINES.append(dict(name="tlc-borrow", path="spec/Borrow.tla lib/vcheck/borrow.py", serves_properties=["C05"],
+    kind_free_text="TLA+ typestate model of borrow/move/thread rules; TLC enumerates programs; rustc compiles the rendered probes"))
 CHECKS["C14"] = dict(category="model_checking", design_ref="6/C14",
     text=("Every program runs on bumpalo::collections::String and std::string::String; TLC validates both traces against Str!Sem: text, return values, "
           "panic/no-panic for every byte index (boundary or not) and every range form incl. usize::MAX over texts of 1-4-byte chars, valid UTF-8 after every call, "
